@@ -4,7 +4,7 @@
    proof in C02/TieGen.v.  `out` is the zero vector the callers pass (np.zeros(n)); the trailing `true` is the
    bounds flag.  Hence the theorems of C02/Props.v and the bit-exact float correspondence speak about the current text. *)
 From Coq Require Import ZArith QArith List Bool PrimFloat.
-From QE Require Import Base.Num Base.Pivot Gen.Kernels Gen.Kernels2 Gen.Kernels3 Base.PivotTie C02.Model C02.TieGen.
+From QE Require Import Base.Num Base.Pivot Gen.Kernels Gen.Kernels2 Gen.Kernels3 Base.GenLemmas C02.Model C02.TieGen.
 Import ListNotations.
 
 Theorem C02_tie_gth_solve_jit :
